@@ -158,7 +158,7 @@ def make_case(rng):
             slow = 0.25
     return {"kind": rng.choice(["sync", "gthread", "async"]), "cfg": rng.randrange(len(CFG_VARIANTS)), "read_delay": slow,
             "reqs": reqs, "progs": progs,
-            "segments": rng.choice([None, None, "bytes", "random"])}
+            "segments": rng.choice([None, None, "bytes", "random", "delayed"])}
 
 
 class Router:
@@ -333,7 +333,14 @@ def run_case(run, e2, harnesses, case, scratch):
         rng = rng_for(0, common.sha12(case))
         cuts = sorted(rng.sample(range(1, len(script)), min(len(script) - 1, 3)))
         seg = [b - a for a, b in zip([0] + cuts, cuts + [len(script)])]
-    out = h.connection(script, router, segments=seg, read_delay=case.get("read_delay") or 0.0,
+    seg_delay = 0.0
+    if case["segments"] == "delayed" and len(case["reqs"]) > 1:
+        # the last request arrives in two pieces 30 ms apart (cut inside its head or body)
+        last = render_request(case["reqs"][-1], len(case["reqs"]) - 1)
+        cutp = len(script) - max(1, len(last) // 2)
+        seg = [cutp, len(script) - cutp]
+        seg_delay = 0.03
+    out = h.connection(script, router, segments=seg, segment_delay=seg_delay, read_delay=case.get("read_delay") or 0.0,
                        timeout=8.0 if case.get("read_delay") else 4.0)
     verdicts = judge(case, out, router)
     # reach counters
@@ -350,6 +357,8 @@ def run_case(run, e2, harnesses, case, scratch):
             run.count("file_wrapper_programs")
     if case.get("read_delay"):
         run.count("large_response_slow_reader_cases")
+    if seg_delay:
+        run.count("delayed_second_piece_cases")
     return verdicts, out
 
 
